@@ -402,7 +402,7 @@ Qed.
 (* the explicit RF_RINGDOWN_TIME test (last sample t[-1]) can only fire together with
    BLOCK_DURATION_MISMATCH when the decoded RF satisfies t[-1] <= shape_dur *)
 Lemma ringdown_error_implies_mismatch sys b r :
-  b_rf b = Some r -> e_kind r = KRf -> e_tlast r <= e_shape_dur r ->
+  b_rf b = Some r -> e_kind r = KRf -> e_tlast r <= e_shape_dur r + spec_eps ->
   In (b_id b, SRf, A_duration, RF_RINGDOWN_TIME) (check_block sys b) ->
   In (b_id b, SBlock, A_duration, BLOCK_DURATION_MISMATCH) (check_block sys b).
 Proof.
@@ -417,10 +417,10 @@ Proof.
 Qed.
 
 Definition DecodedRf (bs : list block) : Prop :=
-  forall b r, In b bs -> b_rf b = Some r -> e_kind r = KRf /\ e_tlast r <= e_shape_dur r.
+  forall b r, In b bs -> b_rf b = Some r -> e_kind r = KRf /\ e_tlast r <= e_shape_dur r + spec_eps.
 
 Lemma block_valid_text_iff v sys b :
-  (forall r, b_rf b = Some r -> e_kind r = KRf /\ e_tlast r <= e_shape_dur r) ->
+  (forall r, b_rf b = Some r -> e_kind r = KRf /\ e_tlast r <= e_shape_dur r + spec_eps) ->
   (BlockValid v sys b <-> BlockValid_text v sys b).
 Proof.
   intro Dec. unfold BlockValid, BlockValid_text. split.
@@ -430,7 +430,7 @@ Proof.
   - intros (HR & HM & HE & HRf & HA). split; [exact HR|]. split; [exact HM|]. split; [exact HE|].
     split; [|exact HA]. intros r R. destruct (HRf r R) as [D1 D2]. split; [exact D1|].
     destruct (Dec r R) as [K T]. pose proof (rf_end_le_block_duration b r R K). unfold Fits, rf_last.
-    unfold spec_eps. lra.
+    unfold spec_eps in *. lra.
 Qed.
 
 Theorem check_ok_iff_text sys bs : DecodedRf bs ->
@@ -669,13 +669,16 @@ Qed.
 Lemma prefix_sum_S b bs i : prefix_sum (b :: bs) (S i) == b_stored b + prefix_sum bs i.
 Proof. unfold prefix_sum. cbn [firstn map sumQ]. reflexivity. Qed.
 
+Lemma advance_eq cur b : advance cur b == cur + b_stored b.
+Proof. unfold advance. apply Qred_correct. Qed.
+
 Lemma starts_go_nth cur bs i : (i < length bs)%nat ->
   nth i (starts_go cur bs) 0 == cur + prefix_sum bs i.
 Proof.
   revert cur i. induction bs as [|b bs IH]; intros cur i Hi; [inversion Hi|].
   destruct i as [|i]; cbn [starts_go nth].
   - unfold prefix_sum. cbn [firstn map sumQ]. ring.
-  - rewrite IH by (cbn [length] in Hi; lia). rewrite prefix_sum_S. ring.
+  - rewrite IH by (cbn [length] in Hi; lia). rewrite prefix_sum_S, advance_eq. ring.
 Qed.
 
 Theorem starts_are_prefix_sums bs i : (i < length bs)%nat -> nth i (starts bs) 0 == prefix_sum bs i.
@@ -714,7 +717,7 @@ Proof. apply wave_at_starts. Qed.
 Lemma duration_go_sum acc bs : duration_go acc bs == acc + sumQ (map b_stored bs).
 Proof.
   revert acc. induction bs as [|b bs IH]; intro acc; cbn [duration_go map sumQ]; [ring|].
-  rewrite IH. ring.
+  rewrite IH, advance_eq. ring.
 Qed.
 Lemma fold_plus_sum acc l : fold_left Qplus l acc == acc + sumQ l.
 Proof.
@@ -746,8 +749,8 @@ Lemma cumsum_go_nth acc l i : (i < length l)%nat ->
 Proof.
   revert acc i. induction l as [|x l IH]; intros acc i Hi; [inversion Hi|].
   destruct i as [|i]; cbn [cumsum_go nth].
-  - cbn [firstn sumQ]. ring.
-  - rewrite IH by (cbn [length] in Hi; lia). cbn [firstn sumQ]. ring.
+  - cbn [firstn sumQ]. rewrite Qred_correct. ring.
+  - rewrite IH by (cbn [length] in Hi; lia). cbn [firstn sumQ]. rewrite Qred_correct. ring.
 Qed.
 Lemma sumQ_firstn_S (l : list Q) i : (i < length l)%nat ->
   sumQ (firstn (S i) l) == sumQ (firstn i l) + nth i l 0.
@@ -906,4 +909,209 @@ Proof.
   inversion Nb; subst. constructor.
   - rewrite in_app_iff. intros [H|H]; [contradiction|]. exact (D x (or_introl eq_refl) H).
   - apply IHl; [assumption|]. intros y Hy. apply D. right. exact Hy.
+Qed.
+
+(* ============================================================ round 2 ======================== *)
+(* ---- the decoded-RF hypothesis follows from the decoding itself (sequence.py:1210-1219) ----- *)
+Lemma decoded_rf_invariant (raster : Q) (sh : rf_time_shape) : 0 < raster ->
+  decode_rf_tlast raster sh <= decode_rf_shape_dur raster sh + spec_eps.
+Proof.
+  intro Hr. destruct sh as [n|tl]; cbn [decode_rf_tlast decode_rf_shape_dur].
+  - unfold spec_eps. nra.
+  - rewrite timing_eps_spec.
+    set (x := (tl * raster - spec_eps) / raster).
+    pose proof (Qle_ceiling x) as C.
+    assert (E : x * raster == tl * raster - spec_eps) by (unfold x; field; lra).
+    assert (M : x * raster <= inject_Z (Qceiling x) * raster).
+    { apply Qmult_le_compat_r; [exact C|lra]. }
+    lra.
+Qed.
+
+(* blocks whose RF events carry the time axis produced by get_block *)
+Definition DecodedBy (sys : system) (bs : list block) : Prop :=
+  forall b r, In b bs -> b_rf b = Some r ->
+    e_kind r = KRf /\
+    exists sh, e_tlast r = decode_rf_tlast (s_rf_raster sys) sh /\
+               e_shape_dur r = decode_rf_shape_dur (s_rf_raster sys) sh.
+
+Lemma decoded_by_decoded_rf sys bs : 0 < s_rf_raster sys -> DecodedBy sys bs -> DecodedRf bs.
+Proof.
+  intros Hr Dec b r Hin R. destruct (Dec b r Hin R) as (K & sh & E1 & E2).
+  split; [exact K|]. rewrite E1, E2. apply decoded_rf_invariant. exact Hr.
+Qed.
+
+Theorem check_ok_iff_text_decoded sys bs : 0 < s_rf_raster sys -> DecodedBy sys bs ->
+  (check_timing sys bs = [] <-> TimingValid_text raster_on_stored sys bs).
+Proof. intros Hr Dec. apply check_ok_iff_text. apply (decoded_by_decoded_rf sys); assumption. Qed.
+
+(* the same fact for an RF event as the makers build it (Props/C13.v: C13_sample_times_centres gives
+   t_last == shape_dur - dwell/2, C13_shape_dur_is_n_dwell gives shape_dur == N * dwell) *)
+Lemma rf_maker_grid_invariant (tlast shape_dur dwell : Q) :
+  0 <= dwell -> tlast == shape_dur - dwell / (2 # 1) -> tlast <= shape_dur + spec_eps.
+Proof. intros Hd E. rewrite E. unfold spec_eps. assert (0 <= dwell / (2#1)) by (apply Qle_shift_div_l; lra). lra. Qed.
+
+(* ---- OwnArgs from what the gradient constructors guarantee -------------------------------- *)
+(* make_arbitrary_grad: tt = (arange(n) + 0.5) * raster, shape_dur = n * raster (n >= 1; Props/C04.v
+   C04_arb_interior_safe: 2 <= length wave) *)
+Lemma grad_own_arbitrary g e (n : Z) : 0 < g ->
+  e_shape_dur e == inject_Z n * g -> e_tlast e == (inject_Z n - (1 # 2)) * g -> GradOwn g e.
+Proof.
+  intros Hg Hs Ht _. exists n. split; [exact Hs|].
+  assert (E : e_tlast e / g == inject_Z n - (1 # 2)) by (rewrite Ht; field; lra).
+  rewrite E, inject_Z_pred. split; lra.
+Qed.
+(* make_extended_trapezoid: shape_dur = tt[-1], and the last time point is on the gradient raster
+   (the constructor raises otherwise; Props/C04.v C04_ext_trap_safe covers the accepted calls) *)
+Lemma grad_own_ext_trap g e (k : Z) : 0 < g ->
+  e_shape_dur e == inject_Z k * g -> e_tlast e == e_shape_dur e -> GradOwn g e.
+Proof.
+  intros Hg Hs Ht _. exists k. split; [exact Hs|].
+  assert (E : e_tlast e / g == inject_Z k) by (rewrite Ht, Hs; field; lra).
+  rewrite E, inject_Z_pred. split; lra.
+Qed.
+(* trapezoids (Props/C11.v trap_chosen_on_raster_positive, trap_flat_nonneg), RF, ADC, delays,
+   triggers need no side condition at all: only arbitrary / extended gradients are rounded by set_block *)
+Lemma own_args_from_constructors g (l : list arg) : 0 < g ->
+  (forall e, In (AEv e) l -> e_kind e = KGrad ->
+     (exists n, e_shape_dur e == inject_Z n * g /\ e_tlast e == (inject_Z n - (1 # 2)) * g) \/
+     (exists k, e_shape_dur e == inject_Z k * g /\ e_tlast e == e_shape_dur e)) ->
+  OwnArgs g l.
+Proof.
+  intros Hg H e Hin K. destruct (H e Hin K) as [(n & A & B)|(k & A & B)].
+  - exact (grad_own_arbitrary g e n Hg A B K).
+  - exact (grad_own_ext_trap g e k Hg A B K).
+Qed.
+
+(* ---- every consumer is the same walk; time_range variants ------------------------------------ *)
+Lemma adc_times_walk cur bs : adc_times_go cur bs = walk adc_local cur bs.
+Proof. revert cur. induction bs as [|b bs IH]; intro cur; cbn [adc_times_go walk]; [reflexivity|]. rewrite IH. reflexivity. Qed.
+Lemma rf_times_walk cur bs : rf_times_go cur bs = walk rf_local cur bs.
+Proof. revert cur. induction bs as [|b bs IH]; intro cur; cbn [rf_times_go walk]; [reflexivity|]. rewrite IH. reflexivity. Qed.
+Lemma wave_walk g ch cur bs : wave_go g ch cur bs = walk (wave_local g ch) cur bs.
+Proof. revert cur. induction bs as [|b bs IH]; intro cur; cbn [wave_go walk]; [reflexivity|]. rewrite IH. reflexivity. Qed.
+
+Lemma walk_app {A} (f : Q -> block -> list A) cur l1 l2 :
+  walk f cur (l1 ++ l2) = walk f cur l1 ++ walk f (duration_go cur l1) l2.
+Proof.
+  revert cur. induction l1 as [|b l1 IH]; intro cur; cbn [app walk duration_go]; [reflexivity|].
+  rewrite IH, app_assoc. reflexivity.
+Qed.
+
+Section WalkCompat.
+  Context {A : Type} (R : A -> A -> Prop) (f : Q -> block -> list A).
+  Hypothesis f_compat : forall c c' b, c == c' -> Forall2 R (f c b) (f c' b).
+  Lemma walk_compat c c' bs : c == c' -> Forall2 R (walk f c bs) (walk f c' bs).
+  Proof.
+    revert c c'. induction bs as [|b bs IH]; intros c c' H; cbn [walk]; [constructor|].
+    apply Forall2_app; [apply f_compat; exact H|]. apply IH. rewrite !advance_eq, H. reflexivity.
+  Qed.
+
+  (* a time_range call returns, up to Qeq of the times, a contiguous segment of the full result:
+     the blocks [b, e) evaluated at the SAME block starts as in the call without time_range *)
+  Lemma walk_time_range bs (b e : nat) : (b < length bs)%nat ->
+    exists pre mid post, walk f 0 bs = pre ++ mid ++ post /\
+      mid = walk f (duration_go 0 (firstn b bs)) (slice b e bs) /\
+      duration_go 0 (firstn b bs) == prefix_sum bs b /\
+      Forall2 R (walk f (tr_start bs b) (slice b e bs)) mid.
+  Proof.
+    intro Hb.
+    exists (walk f 0 (firstn b bs)), (walk f (duration_go 0 (firstn b bs)) (slice b e bs)),
+           (walk f (duration_go (duration_go 0 (firstn b bs)) (slice b e bs)) (skipn (e - b) (skipn b bs))).
+    split; [|split; [reflexivity|split]].
+    - rewrite <- walk_app, <- walk_app. unfold slice. rewrite firstn_skipn, firstn_skipn. reflexivity.
+    - rewrite duration_go_sum. unfold prefix_sum. ring.
+    - apply walk_compat. rewrite (time_range_start_agree bs b Hb), duration_go_sum. unfold prefix_sum. ring.
+  Qed.
+End WalkCompat.
+
+Definition Rq : Q -> Q -> Prop := Qeq.
+Definition Rzq (x y : Z * Q) : Prop := fst x = fst y /\ snd x == snd y.
+Definition Rqq (x y : Q * Q) : Prop := fst x == fst y /\ snd x == snd y.
+
+Lemma adc_local_compat c c' b : c == c' -> Forall2 Rq (adc_local c b) (adc_local c' b).
+Proof.
+  intro H. unfold adc_local. destruct (b_adc b) as [a|]; [|constructor].
+  induction (zrange (e_nsamp a)) as [|k l IH]; cbn [map]; constructor; [|exact IH].
+  unfold Rq. rewrite H. reflexivity.
+Qed.
+Lemma rf_local_compat c c' b : c == c' -> Forall2 Rzq (rf_local c b) (rf_local c' b).
+Proof.
+  intro H. unfold rf_local. destruct (b_rf b) as [r|]; [|constructor].
+  destruct (e_use r <? 2)%Z; [|constructor]. constructor; [|constructor].
+  split; cbn [fst snd]; [reflexivity|rewrite H; reflexivity].
+Qed.
+Lemma Rqq_single a b a' b' : a == a' -> b == b' -> Forall2 Rqq [(a, b)] [(a', b')].
+Proof. intros H K. constructor; [split; assumption|constructor]. Qed.
+Lemma wave_local_compat g ch c c' b : c == c' -> Forall2 Rqq (wave_local g ch c b) (wave_local g ch c' b).
+Proof.
+  intro H. unfold wave_local. destruct (grad_of ch b) as [e|]; [|constructor].
+  unfold wave_piece. destruct (e_kind e); try (apply Forall2_nil).
+  - destruct (e_regular e); apply Rqq_single; rewrite H; reflexivity.
+  - destruct (Qltb timing_eps (Qabs (e_flat e))); [apply Rqq_single; rewrite H; reflexivity|].
+    destruct (Qltb timing_eps (Qabs (e_rise e)) && Qltb timing_eps (Qabs (e_fall e))); [|apply Forall2_nil].
+    apply Rqq_single; rewrite H; reflexivity.
+Qed.
+
+(* C07: the time_range variants of adc_times / rf_times / waveforms use the block starts of the full timeline *)
+Theorem adc_times_time_range bs lo hi : (begin_block bs lo < length bs)%nat ->
+  exists pre mid post, adc_times bs = pre ++ mid ++ post /\ Forall2 Rq (adc_times_tr bs lo hi) mid.
+Proof.
+  intro Hb. unfold adc_times, adc_times_tr, tr_blocks. rewrite !adc_times_walk.
+  destruct (walk_time_range Rq adc_local adc_local_compat bs _ (end_block bs hi) Hb) as (pre & mid & post & E & _ & _ & F).
+  exists pre, mid, post. split; assumption.
+Qed.
+Theorem rf_times_time_range bs lo hi : (begin_block bs lo < length bs)%nat ->
+  exists pre mid post, rf_times bs = pre ++ mid ++ post /\ Forall2 Rzq (rf_times_tr bs lo hi) mid.
+Proof.
+  intro Hb. unfold rf_times, rf_times_tr, tr_blocks. rewrite !rf_times_walk.
+  destruct (walk_time_range Rzq rf_local rf_local_compat bs _ (end_block bs hi) Hb) as (pre & mid & post & E & _ & _ & F).
+  exists pre, mid, post. split; assumption.
+Qed.
+Theorem waveforms_time_range g ch bs lo hi : (begin_block bs lo < length bs)%nat ->
+  exists pre mid post, wave_pieces g ch bs = pre ++ mid ++ post /\ Forall2 Rqq (wave_pieces_tr g ch bs lo hi) mid.
+Proof.
+  intro Hb. unfold wave_pieces, wave_pieces_tr, tr_blocks. rewrite !wave_walk.
+  destruct (walk_time_range Rqq (wave_local g ch) (wave_local_compat g ch) bs _ (end_block bs hi) Hb)
+    as (pre & mid & post & E & _ & _ & F).
+  exists pre, mid, post. split; assumption.
+Qed.
+
+(* ---- sequences read back from a file -------------------------------------------------------- *)
+Lemma prefix_sum_ext (bs bs' : list block) :
+  Forall2 (fun a b => b_stored a == b_stored b) bs bs' -> forall i, prefix_sum bs i == prefix_sum bs' i.
+Proof.
+  intro H. induction H as [|a b l l' Hab Hl IH]; intro i.
+  - reflexivity.
+  - destruct i as [|i]; [reflexivity|]. rewrite !prefix_sum_S, Hab, IH. reflexivity.
+Qed.
+
+(* C07: durations written as integers x block raster and read back give the same running sums (hence
+   the same block starts for every consumer and the same total), when they were on the block raster *)
+Theorem reread_same_timeline sys bs : 0 < s_block_raster sys ->
+  (forall b, In b bs -> exists k : Z, b_stored b == inject_Z k * s_block_raster sys) ->
+  (forall i, prefix_sum (map (reread_block sys) bs) i == prefix_sum bs i) /\
+  total_duration (map (reread_block sys) bs) == total_duration bs.
+Proof.
+  intros Hr On.
+  assert (F : Forall2 (fun a b => b_stored a == b_stored b) (map (reread_block sys) bs) bs).
+  { induction bs as [|b bs IH]; cbn [map]; constructor.
+    - destruct (On b (or_introl eq_refl)) as (k & Hk).
+      unfold reread_block, with_stored. cbn [b_stored].
+      exact (proj2 (blocks_column_agree sys b k Hr Hk)).
+    - apply IH. intros b' Hin. apply On. right. exact Hin. }
+  split; [apply prefix_sum_ext; exact F|].
+  destruct (total_duration_agree (map (reread_block sys) bs)) as [_ T1].
+  destruct (total_duration_agree bs) as [_ T2].
+  rewrite T1, T2, map_length. apply prefix_sum_ext. exact F.
+Qed.
+
+(* duration(): the event counters never exceed the number of blocks *)
+Lemma filter_len_le {A} (g : A -> bool) (l : list A) : (length (filter g l) <= length l)%nat.
+Proof. induction l as [|a l IH]; cbn [filter length]; [lia|]. destruct (g a); cbn [length]; lia. Qed.
+Lemma count_some_bounds g bs : (0 <= count_some g bs <= Z.of_nat (length bs))%Z.
+Proof. unfold count_some. pose proof (filter_len_le g bs). lia. Qed.
+Lemma event_count_le bs : Forall (fun c => (0 <= c <= Z.of_nat (length bs))%Z) (event_count bs).
+Proof.
+  unfold event_count. constructor; [lia|].
+  repeat (constructor; [apply count_some_bounds|]). constructor.
 Qed.
